@@ -133,6 +133,30 @@ func runR043(c *Ctx) {
 					found = true
 				}
 			}
+			// or: the element at slices.IndexFunc(hops, h => h.IsDest) – the first such hop by the library's contract
+			if !found && r0.Op == "index" && len(r0.Args) == 2 && r0.Args[1].Op == "call" && strings.HasPrefix(r0.Args[1].Name, "slices.IndexFunc") && len(r0.Args[1].Args) == 2 && r0.Args[1].Args[0].Key() == r0.Args[0].Key() {
+				if site, ok := r0.Args[1].Val.(*ssa.Call); ok {
+					var pred *ssa.Function
+					switch a := site.Common().Args[1].(type) {
+					case *ssa.MakeClosure:
+						pred, _ = a.Fn.(*ssa.Function)
+					case *ssa.Function:
+						pred = a
+					}
+					if pred != nil && len(pred.Params) == 1 {
+						okPred := true
+						prps, complete := core.ReturnPaths(c.P, pred, 100)
+						for _, pr := range prps {
+							r := pr.Results[0]
+							isElemDest := r.Op == "field" && r.Name == "IsDest" && r.Args[0].Op == "param"
+							if !(isElemDest || r.IsConst("false")) {
+								okPred = false
+							}
+						}
+						found = okPred && complete && len(prps) > 0
+					}
+				}
+			}
 			R.Check(found, "R04.3", key, rp.Ret.Pos(), core.FuncName(f), "returns the hop whose IsDest was tested", "returns "+r0.String()+" without testing that hop's IsDest")
 		}
 		R.Floor("R04.3:GetDestinationHop", nonNil, 1)
